@@ -368,10 +368,59 @@ fn gen_long_gap_case(d: &mut Dec) -> Case {
     }
 }
 
+/// A lookahead whose simulation keeps many states active at once (`[ab]*a[ab]{n}c`, n = 15 .. 70:
+/// the subset construction of this expression has 2^n states) and inputs that decide it on the
+/// n-th character from the end.
+fn gen_wide_lookahead_case(d: &mut Dec) -> Case {
+    use crate::rx::LitForm::Verbatim as V;
+    let n = *d.pick(&[15u32, 16, 17, 31, 32, 33, 34, 40, 63, 64, 65, 70]);
+    let ab = || {
+        Rx::Class(crate::rx::Class::Bracket(crate::rx::Bracket {
+            negated: false,
+            set: crate::rx::ClassSet::Items(vec![
+                crate::rx::ClassItem::Lit('a', V),
+                crate::rx::ClassItem::Lit('b', V),
+            ]),
+        }))
+    };
+    let la = Rx::Concat(vec![
+        Rx::Repeat(Box::new(ab()), 0, None),
+        Rx::Lit('a', V),
+        Rx::Repeat(Box::new(ab()), n, Some(n)),
+        Rx::Lit('c', V),
+    ]);
+    let mut pats = vec![
+        PatSpec { rx: Rx::Lit('x', V), tt: 1, la: Some(LaSpec { positive: d.bool(), rx: la }) },
+        PatSpec { rx: Rx::Lit('x', V), tt: 2, la: None },
+        PatSpec { rx: Rx::Repeat(Box::new(ab()), 1, None), tt: 3, la: None },
+    ];
+    if d.bool() {
+        pats.swap(0, 1);
+    }
+    let mut input = String::new();
+    for _ in 0..1 + d.below(3) {
+        input.push('x');
+        let len = n as usize + 1 + d.below(6);
+        let decisive = len - 1 - n as usize; // index whose letter decides the lookahead
+        for i in 0..len {
+            input.push(if i == decisive { if d.chance(200) { 'a' } else { 'b' } } else if d.chance(200) { 'a' } else { 'b' });
+        }
+        input.push(if d.chance(220) { 'c' } else { 'q' });
+    }
+    Case {
+        modes: vec![ModeSpec { name: "INITIAL".into(), pats, transitions: vec![] }],
+        inputs: vec![input],
+        ..Case::default()
+    }
+}
+
 fn gen_lookahead_case(d: &mut Dec, thorough: bool, min_pats: usize) -> Case {
     let p = GenParams::for_tier(thorough).with_lookaheads(110);
     if d.chance(1) {
         return gen_long_gap_case(d);
+    }
+    if d.chance(2) {
+        return gen_wide_lookahead_case(d);
     }
     if d.chance(p.large_per_256) {
         let mode = gen::gen_large_mode(d, &p.clone().with_lookaheads(90), "INITIAL");
